@@ -9,7 +9,8 @@ ANTI_REORG_DELAY = 6
 
 EVIDENCE = dict(assumptions=[
     'kernel only: OnchainEventEntry::confirmation_threshold / has_reached_confirmation_threshold of channelmonitor.rs and onchaintx.rs, 1 <= confirmation height < 2^31 (height 0 with a zero CSV underflows `height + csv - 1`; no transaction confirms in the genesis block)',
-    'equivalence of block-delivery styles, retraction on blocks_disconnected and claim regeneration are history-quantified and outside the claim'])
+    'C11.c: the per-entry decisions of ChannelMonitor reorg handling (retain closure of blocks_disconnected, funding-spend finality closure of get_onchain_failed_outbound_htlcs) as closures over one queue entry; the captured monitor state is a lazily symbolic struct',
+    'equivalence of block-delivery styles, the rest of blocks_disconnected (claim regeneration, OnchainTxHandler) and multi-step reorg histories are outside the claim'])
 
 
 def panic_of(E):
@@ -19,6 +20,7 @@ def panic_of(E):
 def run(S):
     D = S.decls()
     thresholds(S, D)
+    monitor_closures(S, D)
     try:
         from engine_k import runner as K
         K.run_property(S, 'C11')
@@ -106,3 +108,88 @@ def thresholds(S, D):
     S.prove('C11.b.onchaintx_threshold', E, pre, z3.And(thr.t == height + ANTI_REORG_DELAY - 1, X.zbool(reached.t) == (hh.t >= height + ANTI_REORG_DELAY - 1)),
             'claim-tracking events mature exactly at height + ANTI_REORG_DELAY - 1', [b], bounds='heights < 2^31')
     S.no_panic('C11.b.onchaintx_nopanic', E, pre, 'no overflow for heights < 2^31', [b])
+
+
+def _find_fn(S, rx):
+    import re
+    ix = S.mir()
+    c = [i for i in range(len(ix.offsets)) if re.search(rx, ix.offsets[i][0])]
+    if len(c) != 1:
+        raise Inconclusive('%d functions match %s' % (len(c), rx))
+    return ix.get(c[0])
+
+
+def monitor_closures(S, D):
+    """C11.c: the two per-entry decisions of ChannelMonitor reorg handling, each decided for every entry of a
+    queue of any length (the closures are what `retain` / `find_map` apply to each element):
+      * blocks_disconnected keeps an awaiting on-chain event iff its block is still part of the chain
+        (entry.height <= fork-point height);
+      * get_onchain_failed_outbound_htlcs treats the funding spend as final only once it has
+        ANTI_REORG_DELAY confirmations (entry.height + 5 <= best height), and only a FundingSpendConfirmation.
+    Replayed on a live monitor: force-closed channel with a pending dust HTLC, blocks connected / disconnected."""
+    import re
+    if all(S._skip(o) for o in ('C11.c.retain_iff_still_in_chain', 'C11.c.funding_spend_final_after_delay', 'C11.c.other_events_ignored', 'C11.c.nopanic', 'C11.c.witness', 'C11.c.validate', 'C11.c.validate2', 'C11.c.nopanic2', 'C11.c.witness2')):
+        return
+    key = lambda fn: re.search(r'\{closure@[^}]*\}', fn.params[0][1]).group(0)
+    hidx = D.field_index('OnchainEventEntry', 'height', hint='channelmonitor')
+    eidx = D.field_index('OnchainEventEntry', 'event', hint='channelmonitor')
+    # ---- retain closure of blocks_disconnected -------------------------------------------
+    f1 = _find_fn(S, r'channelmonitor\.rs[^>]*>::blocks_disconnected::\{closure#0\}\(_1: &mut \{closure@[^}]*\}, _2: &(?:\w+::)*OnchainEventEntry\)')
+    E = S.engine()
+    mem = {}
+    nh = E.sym('new_height', 'u32')
+    cn = E.new_cell()
+    mem[cn] = nh
+    cc = E.new_cell()
+    mem[cc] = X.Clo(key(f1), [X.Ref(cn)])
+    entry = E.sym('e', f1.params[1][1], mem)
+    keep = X.zbool(S.call(E, f1, [X.Ref(cc), entry], mem).t)
+    h = E.read_path(mem[entry.cell], (('f', hidx, 'u32'),), mem, True, 'spec').t
+
+    def line1(v):
+        hv, nv = v
+        r = max(-1, min(3, nv - hv))          # the live scenario realises fork points H-1 .. H+3
+        return '0 %d 1 0' % (r + 1)
+    b1 = Binding('monitor_reorg_probe', [h, nh.t], [None, z3.If(keep, 1, 0), None, None], line_fn=line1, which='oracle_tu', panic=panic_of(E))
+    S.prove('C11.c.retain_iff_still_in_chain', E, [], keep == (h <= nh.t),
+            'when blocks are disconnected down to a fork point, an on-chain event awaiting confirmations is kept iff the block it was seen in is still part of the chain (height <= fork-point height) - an event in the fork-point block itself survives, one above it is retracted',
+            [b1], bounds='every entry of the queue (any length), all u32 heights')
+    S.no_panic('C11.c.nopanic', E, [], 'total', [b1])
+    S.witness('C11.c.witness', E, [h == nh.t], keep)
+    S.validate('C11.c.validate', E, b1, n=12, extra_vectors=[(100, 99 + k) for k in range(6)])
+    # ---- funding-spend finality closure of get_onchain_failed_outbound_htlcs ---------------
+    f2 = _find_fn(S, r'::get_onchain_failed_outbound_htlcs::\{closure#0\}::\{closure#0\}\(')
+    E2 = S.engine()
+    mem2 = {}
+    us = E2.sym('us', '&chain::channelmonitor::ChannelMonitorImpl<Signer>', mem2)
+    cg = E2.new_cell()
+    mem2[cg] = us      # the MutexGuard the closure captured derefs to the monitor
+    E2.models.insert(0, (re.compile(r'MutexGuard<.*> as (?:std::ops::)?Deref>::deref$'), lambda E_, m, func, argv, guard, mem_, dty, caller: mem_[cg]))
+    c2 = E2.new_cell()
+    mem2[c2] = X.Clo(key(f2), [X.Ref(cg)])
+    entry2 = E2.sym('e', f2.params[1][1], mem2)
+    rv2 = S.call(E2, f2, [X.Ref(c2), entry2], mem2)
+    ret2 = S.ret_guard
+    some = z3.And(ret2, X.zint(rv2.d) == 1)
+    ev = mem2[entry2.cell]
+    h2 = E2.read_path(ev, (('f', hidx, 'u32'),), mem2, True, 'spec').t
+    kind = X.zint(E2.read_path(ev, (('f', eidx, 'chain::channelmonitor::OnchainEvent'),), mem2, True, 'spec').d)
+    bb_idx = D.field_index('ChannelMonitorImpl', 'best_block')
+    best = E2.read_path(mem2[us.cell], (('f', bb_idx, 'chain::BlockLocator'), ('f', D.field_index('BlockLocator', 'height'), 'u32')), mem2, True, 'spec').t
+    FS = D.variant_index('OnchainEvent', 'FundingSpendConfirmation', hint='channelmonitor')
+    pre2 = [h2 >= 1, h2 <= best, best < (1 << 31)]      # an awaiting entry was seen in a block at or below the best block
+
+    def line2(v):
+        hv, bv = v[0], v[1]
+        d = max(0, min(8, bv - hv))
+        return '0 %d 0 0' % d
+    b2 = Binding('monitor_reorg_probe', [h2, best, kind], [None, None, None, z3.If(some, 1, 0)], line_fn=line2, which='oracle_tu', panic=panic_of(E2),
+                 domain=[(1, 1 << 30), (1, 1 << 30), (FS, FS)])
+    S.prove('C11.c.funding_spend_final_after_delay', E2, pre2 + [kind == FS], some == (h2 + ANTI_REORG_DELAY - 1 <= best),
+            'HTLCs are reported as failed on chain only once the transaction that spent the funding output has ANTI_REORG_DELAY confirmations (seen at height h, final from best height h + 5 on) - never on a spend that a short reorg could still undo',
+            [b2], bounds='every entry of the queue (any length), heights 1 .. 2^31')
+    S.prove('C11.c.other_events_ignored', E2, pre2 + [kind != FS], z3.Not(some),
+            'only a FundingSpendConfirmation entry can make the funding spend count as confirmed', [])
+    S.no_panic('C11.c.nopanic2', E2, pre2, 'no overflow in height + ANTI_REORG_DELAY - 1', [b2])
+    S.witness('C11.c.witness2', E2, pre2 + [kind == FS], some)
+    S.validate('C11.c.validate2', E2, b2, n=10, extra_vectors=[(100, 100 + k, FS) for k in range(9)])
